@@ -37,6 +37,8 @@ type recovered struct {
 	CountErr  string   `json:"stats_err"`
 	After     []int    `json:"ids_after_more_ingest"`
 	AfterErr  string   `json:"after_err"`
+	Again     []int    `json:"ids_after_second_restart"`
+	AgainErr  string   `json:"again_err"`
 }
 
 func initSiglens(dir string) error {
@@ -181,6 +183,37 @@ func workerMain(args []string) {
 			}
 			marker(dir, fmt.Sprintf("DONE %d", i))
 		}
+		os.Exit(0)
+	case "again":
+		// second generation: the process that recovered, ingested and flushed more is gone too (its flush had
+		// completed); start once more on the same directory and read everything
+		of := args[3]
+		var out recovered
+		ob, _ := os.ReadFile(of)
+		_ = json.Unmarshal(ob, &out)
+		if err := initSiglens(dir + "/data"); err != nil {
+			out.AgainErr = err.Error()
+		} else {
+			var prev []int
+			for i := 0; i < 20; i++ {
+				time.Sleep(100 * time.Millisecond)
+				cur, _, _ := matchAll(h.Index)
+				if i > 0 && fmt.Sprint(cur) == fmt.Sprint(prev) {
+					break
+				}
+				prev = cur
+			}
+			ids, _, err := matchAll(h.Index)
+			out.Again = ids
+			if err != nil {
+				out.AgainErr = err.Error()
+			}
+			if out.Again == nil {
+				out.Again = []int{}
+			}
+		}
+		ob, _ = json.Marshal(out)
+		_ = os.WriteFile(of, ob, 0o644)
 		os.Exit(0)
 	case "recover":
 		out := recovered{}
